@@ -144,6 +144,7 @@ class POP(BaseModelSingleSet):
             compute_eagerly=compute,
             random_state=random_state,
             solver_kwargs=solver_kwargs,
+            solver=solver,
         )
 
         self.sorted = False
